@@ -16,7 +16,8 @@ EXPLANATION = (
     ' Third round: the score matrices whose raw pointers go to the search are declared 2-d float C-contiguous buffers (R2.2 run:buffer); every accepted chart entry is expanded unconditionally.'
     ' Fourth round: worker results are gathered in the order the pieces were cut (rule of C11); one function-scope candidate queue that is never emptied between words is reported as a finding of the model.'
     ' Fifth round: candidates selected with std::nth_element and read in index order are a model-level finding; the rule cache never shrinks during a search.'
-    ' Sixth and seventh round: left / right back-pointers chosen by a condition are a model-level finding; every sentence that is not too long goes through parse_sentence (R2.4); the beam options reach the search as given and the score matrices have exactly one column per category (R2.2, shared with C16 / C11).')
+    ' Sixth and seventh round: left / right back-pointers chosen by a condition are a model-level finding; every sentence that is not too long goes through parse_sentence (R2.4); the beam options reach the search as given and the score matrices have exactly one column per category (R2.2, shared with C16 / C11).'
+    " Ninth and tenth round: the beam rule of C16 (at most pruning_size candidates per word, best first, stop below the threshold) is a condition of 'leaf categories are beam-admitted' and runs here too.")
 TRUSTED = ['clang-14 front end (-fsyntax-only, JSON AST)', 'CPython ast', 'the Cython normaliser sa/pyx.py', 'rule table DESIGN.md C02']
 
 
